@@ -359,10 +359,11 @@ def run_reject_case(ctx, case):
     v = np.asarray(case["values"], dtype=np.float64)
     ctx.evaluated()
     ctx.tag("reject:decreasing")
+    mx = int(case.get("maxnan", 10 ** 6))
     for nm, fn in (("aggregate", lambda: du.aggregate(idx.astype(np.int32), v.copy(),
-                                                     case["op"], 10 ** 6)),
+                                                     case["op"], mx)),
                    ("flathomogen", lambda: du.flathomogen(idx.astype(np.int32),
-                                                         v.copy(), 10 ** 6))):
+                                                         v.copy(), mx))):
         ctx.api(nm)
         try:
             r = fn()
@@ -378,6 +379,11 @@ def run_m2d_case(ctx, case):
     start = pd.Timestamp(case["start"])
     vals = np.asarray(case["values"], dtype=float)
     interp = case["interpolation"]
+    if len(vals) % 2:
+        # the option as a string built at run time (configuration file, command line)
+        from hyverif.core import runtime_str
+        interp = runtime_str(interp, len(vals))
+        ctx.tag("m2d:option-string-built-at-run-time")
     n = len(vals)
     ctx.evaluated()
     ctx.tag("m2d:" + interp)
@@ -479,6 +485,13 @@ def run(ctx):
             if bad[j] >= -2 ** 31:
                 run_reject_case(ctx, {"kind": "reject", "index": bad, "values": v,
                                       "op": it % 4})
+                # ... whatever the missing values and the number of them a group may
+                # hold: a missing value in the group that is open where the index drops
+                vn = np.array(v, dtype=float, copy=True)
+                vn[max(0, j - 1 - int(rng.integers(0, 3))):j + int(rng.integers(0, 2))] = np.nan
+                run_reject_case(ctx, {"kind": "reject", "index": bad, "values": vn,
+                                      "op": it % 4, "maxnan": [0, 1, 2, 10 ** 6][it % 4]})
+                ctx.tag("reject:decreasing-with-missing-values")
     nm = 12 if ctx.tier == "quick" else 300
     for it in range(nm):
         if ctx.out_of_time():
